@@ -55,6 +55,8 @@ func (fx *fnExec) indexAnchors() map[ssa.Instruction]anchorInfo {
 				}
 			case *ssa.Return:
 				base = "return"
+			case *ssa.TypeAssert:
+				base = "typeassert"
 			case *ssa.MapUpdate:
 				base = "mapupdate"
 				if t := fx.nodeText[x.Pos()]; t != "" {
@@ -148,6 +150,14 @@ func (fx *fnExec) anchorGhostSets(st *state, in ssa.Instruction, extra map[strin
 		g := fx.g.cs.Ghosts[a.Target]
 		if g == nil {
 			fx.fail("ghostset of unknown ghost %s", a.Target)
+		}
+		if v.sort == "nil" {
+			switch ghostSort(g.Sort) {
+			case "Iface":
+				v.term = "iface_nil"
+			case "Int":
+				v.term = "0"
+			}
 		}
 		n := fx.fresh("G_"+a.Target, ghostSort(g.Sort))
 		fx.assert("(= " + n + " " + v.term + ")")
@@ -391,11 +401,8 @@ func (fx *fnExec) execInstr(st *state, in ssa.Instruction) {
 			args = append(args, fx.operand(st, a))
 		}
 		fx.deferArgs[x] = args
-		if !x.Call.IsInvoke() {
-			fx.deferFn[x] = fx.operand(st, x.Call.Value)
-		} else {
-			fx.deferFn[x] = fx.operand(st, x.Call.Value)
-		}
+		fx.deferFn[x] = fx.operand(st, x.Call.Value)
+		fx.anchorGhostSets(st, in, nil)
 	case *ssa.RunDefers:
 		for i := len(st.defers) - 1; i >= 0; i-- {
 			d := st.defers[i]
@@ -594,6 +601,7 @@ func (fx *fnExec) execUnOp(st *state, x *ssa.UnOp) {
 			}
 		}
 		fx.vals[x] = val{term: n, typ: x.Type()}
+		fx.anchorGhostSets(st, x, map[string]sval{"res0": {term: n, typ: x.Type(), sort: fx.d.SortOf(elem)}})
 	case token.NOT:
 		fx.vals[x] = val{term: fx.define(fx.vname(x), "Bool", not(fx.termOf(st, x.X))), typ: x.Type()}
 	case token.SUB:
@@ -874,6 +882,7 @@ func (fx *fnExec) execTypeAssert(st *state, x *ssa.TypeAssert) {
 		vT := fx.define(fx.vname(x)+"!v", fx.d.SortOf(x.AssertedType), "(ite "+okT+" "+v+" "+fx.d.Zero(x.AssertedType)+")")
 		fx.assume(fx.wellTyped(vT, x.AssertedType, st.alloc))
 		fx.vals[x] = val{tuple: []val{{term: vT, typ: x.AssertedType}, {term: okT, typ: tBool}}, typ: x.Type()}
+		fx.anchorGhostSets(st, x, map[string]sval{"res0": {term: vT, typ: x.AssertedType, sort: fx.d.SortOf(x.AssertedType)}, "res1": {term: okT, typ: tBool, sort: "Bool"}, "arg0": fx.toSval(o)})
 		return
 	}
 	fx.safetyObl("typeassert", x, x.Pos(), "typeassert", okT)
